@@ -57,8 +57,8 @@ def harnesses():
         out.append(H(f"c06_falsey_other{w}", "C06", "quick", f"falsey_other({w})", "falsey_other",
                      "concrete representative of a kind outside the table"))
     # ---- C10
-    KK = {0: "int", 1: "float", 2: "byte", 3: "char", 4: "bool", 5: "null", 6: "str0", 7: "str1", 8: "str2"}
-    quick_pairs = {(0, 0), (0, 1), (1, 0), (1, 1), (2, 2), (3, 3), (4, 4), (7, 7), (8, 8), (0, 2), (2, 4), (3, 7)}
+    KK = {0: "int", 1: "float", 2: "byte", 3: "char", 4: "bool", 5: "null", 6: "str0", 7: "str1", 8: "str2", 9: "builtin"}
+    quick_pairs = {(0, 0), (0, 1), (1, 0), (1, 1), (2, 2), (3, 3), (4, 4), (7, 7), (8, 8), (0, 2), (2, 4), (3, 7), (9, 9)}
     for a, an in KK.items():
         for b, bn in KK.items():
             tier = "quick" if (a, b) in quick_pairs else "thorough"
